@@ -513,7 +513,14 @@ fn gen_model(
     mut pdf: impl FnMut(&mut Tape, usize) -> Vec<f32>,
 ) -> ModelSpec {
     let nq = t.urange(1, 10);
-    let questions = gen_questions(t, nq);
+    let mut questions = gen_questions(t, nq);
+    // Question names are local to a tree section: now and then use short generic names, so that
+    // different sections of one file define the same name with different patterns.
+    if t.chance(0.3) {
+        for (i, q) in questions.iter_mut().enumerate() {
+            q.0 = format!("Q{}", i + 1);
+        }
+    }
     let trees = states
         .iter()
         .map(|s| gen_tree(t, *s, questions.len(), max_depth, protect, |t| pdf(t, *s)))
@@ -543,13 +550,15 @@ pub fn gen_voice(t: &mut Tape, o: GenOpts) -> VoiceSpec {
     // duration: small means so that utterances stay short
     let dmax = if o.small { 4.0 } else { 12.0 };
     let ns = num_states;
+    // degenerate but loadable: a duration model without any variance (deterministic durations)
+    let zero_dur_var = t.chance(0.03);
     let duration = gen_model(t, "dur", &[2], ns * 2, o.max_depth, usize::MAX, |t, _| {
         let mut v = Vec::with_capacity(ns * 2);
         for _ in 0..ns {
             v.push(t.uniform(0.3, dmax) as f32);
         }
         for _ in 0..ns {
-            v.push(t.log_uniform(0.05, 20.0) as f32);
+            v.push(if zero_dur_var { 0.0 } else { t.log_uniform(0.05, 20.0) as f32 });
         }
         v
     });
